@@ -602,7 +602,9 @@ class Builder:
 
     def build(self):
         from sc3.synth.synthdef import SynthDef
-        sd = SynthDef(self.spec['name'], self.make_func())
+        if getattr(self, '_fn', None) is None:
+            self._fn = self.make_func()
+        sd = SynthDef(self.spec['name'], self._fn)
         self.synthdef = sd
         return def_bytes(sd)
 
